@@ -205,6 +205,32 @@ class Raiser(TransmissionObserverInterface):
         raise RuntimeError("observer failure (voice ended)")
 
 
+class UnhashableRaiser(Raiser):
+    """an observer with value equality and therefore no hash (what every @dataclass observer is)"""
+
+    def __init__(self, tag="u"):
+        self.tag = tag
+
+    def __eq__(self, other):
+        return isinstance(other, UnhashableRaiser) and other.tag == self.tag
+
+    __hash__ = None
+
+
+class FalsyRaiser(Raiser):
+    """an observer that is a (still empty) container: falsy"""
+
+    def __len__(self):
+        return 0
+
+    def transmission_started(self, transmission_type):
+        raise KeyError("observer failure (started)")
+
+
+def raisers():
+    return [Raiser(), UnhashableRaiser(), FalsyRaiser()]
+
+
 class SlotMonitor:
     def __init__(self, prev_seq=0):
         self.open = None
@@ -335,10 +361,11 @@ class Tracker(explore.System):
         self.tok = 0
         self.rec_a = Recorder("term-before")
         self.rec_b = Recorder("term-after")
-        self.term = Terminal(dmrid=1, observers=[self.rec_a, Raiser(), self.rec_b])
+        self.term = Terminal(dmrid=1, observers=[self.rec_a] + raisers() + [self.rec_b])
         self.slot_rec = {}
         for n in (1, 2):
-            self.term.timeslots[n].add_observer(Raiser())
+            for r_ in raisers():
+                self.term.timeslots[n].add_observer(r_)
             self.slot_rec[n] = Recorder(f"slot{n}")
             self.term.timeslots[n].add_observer(self.slot_rec[n])
         self.mon = {n: SlotMonitor() for n in (1, 2)}
@@ -446,7 +473,7 @@ class WatcherSys(explore.System):
         self.tok = 0
         self.rec_a = Recorder("w-before")
         self.rec_b = Recorder("w-after")
-        self.w = TransmissionWatcher(observers=[self.rec_a, Raiser(), self.rec_b])
+        self.w = TransmissionWatcher(observers=[self.rec_a] + raisers() + [self.rec_b])
         self.slot_rec = {}  # (target, ts) -> Recorder
         self.mon = {}
         self.obs = None
